@@ -16,8 +16,9 @@
 (*         "parent_ == 0" case of EndObject / EndArray                     *)
 (*   ub    the handler was driven outside what it was written for (a key   *)
 (*         looked up in, or a slot entered of, the *old* value while a     *)
-(*         replacement array is being built): recorded finding             *)
-(*         C19-text-array-holding-object; nothing is predicted after that  *)
+(*         replacement array is being built): the defect repaired by       *)
+(*         5a90f66 (FixArr = FALSE models the code before it); nothing is  *)
+(*         predicted after that                                            *)
 (*                                                                         *)
 (* Deliberate deviation kept in the model because the code has it: an      *)
 (* empty object in the text against a non-empty existing object leaves the *)
@@ -37,7 +38,8 @@
 (*                against a non-empty object at a matched position         *)
 (***************************************************************************)
 EXTENDS Gen_Schema
-CONSTANT FixFound
+CONSTANTS FixFound,   \* TRUE: the code after repair 31fcde9 (EndObject of a rebuilt slot restores the saved found count)
+          FixArr      \* TRUE: the code after repair 5a90f66 (StartArray leaves update mode while the replacement array is built)
 
 None == <<0>>                      \* "no node" (paths are sequences of indices >= 1)
 
@@ -102,20 +104,27 @@ EndObj(s, pairs) ==
                  IN IF FixFound THEN [s1 EXCEPT !.fc = Last(s.fst), !.fst = Front(s.fst)] ELSE s1
        ELSE PushNode([s EXCEPT !.fr = Front(s.fr)], ObjOf(f.items, pairs))
 
-\* StartArray (:231-244)
+\* StartArray (:231-247)
 StartArr(s) ==
   IF s.cur # None
   THEN IF s.fr # <<>> THEN Ub(s)
+       ELSE IF FixArr
+       THEN [s EXCEPT !.pst = Append(Append(@, s.par), s.cur), !.par = None, !.cur = None, !.fr = <<[kind |-> "slotarr", items |-> <<>>]>>]
        ELSE [s EXCEPT !.pst = Append(@, s.par), !.par = s.cur, !.cur = None, !.fr = <<[kind |-> "slotarr", items |-> <<>>]>>]
   ELSE IF s.fr = <<>> THEN Ub(s) ELSE [s EXCEPT !.fr = Append(@, [kind |-> "arr", items |-> <<>>])]
 
-\* EndArray (:288-320)
+\* EndArray (:291-325)
 EndArr(s, count) ==
   IF s.fr = <<>> THEN Ub(s)
   ELSE LET f == Last(s.fr) IN
        IF Len(f.items) # count \/ f.kind \in {"obj", "slotobj"} THEN Ub(s)
        ELSE IF f.kind = "slotarr"
-       THEN IF s.pst = <<>> \/ s.par = None THEN Ub(s)
+       THEN IF FixArr
+            THEN IF Len(s.pst) < 2 THEN Ub(s)
+                 ELSE LET slot == Last(s.pst) pst1 == Front(s.pst) IN
+                      [s EXCEPT !.doc = SetAt(s.doc, slot, [k |-> "arr", e |-> f.items]), !.cur = slot, !.par = Last(pst1),
+                                !.pst = Front(pst1), !.fr = <<>>]
+            ELSE IF s.pst = <<>> \/ s.par = None THEN Ub(s)
             ELSE [s EXCEPT !.doc = SetAt(s.doc, s.par, [k |-> "arr", e |-> f.items]), !.cur = s.par, !.par = Last(s.pst),
                            !.pst = Front(s.pst), !.fr = <<>>]
        ELSE PushNode([s EXCEPT !.fr = Front(s.fr)], [k |-> "arr", e |-> f.items])
@@ -159,7 +168,7 @@ EmptyObjShape(E, V) ==
 PairOk(E, V) ==
   \A r \in {ISchema(E, V)} :
     /\ ~r.ub => r.doc = SchemaMergeDev(E, V)
-    /\ r.ub => ArrObjShape(E, V)
+    /\ r.ub => (~FixArr /\ ArrObjShape(E, V))      \* with the repaired StartArray the handler never leaves its domain
     /\ SchemaMergeDev(E, V) # SchemaMerge(E, V) => EmptyObjShape(E, V)
 ModelOk == \A E \in {DenT(tree)} : \A V \in {DenT(tree2)} : PairOk(E, V)
 =============================================================================
